@@ -9,3 +9,8 @@ import TruthModel.Driver.C11
 import TruthModel.Model.InstrIO
 import TruthModel.Driver.C03
 import TruthModel.Props.C03
+import TruthModel.Props.C16
+import TruthModel.Props.C17
+import TruthModel.Driver.C17
+import TruthModel.Model.Pixels
+import TruthModel.Props.C01
